@@ -102,6 +102,7 @@ type FnEnc struct {
 	ifaceCalls []IfaceCall
 	cellInit0 map[string]string
 	staticContractCalls int
+	oblNames map[string]int
 }
 
 func (fe *FnEnc) fnName() string { return shortFn(fe.fn) }
@@ -135,6 +136,14 @@ func (fe *FnEnc) oblig(kind, label, goal, src string, pos token.Pos) *Obligation
 	name := top.fnName() + "#" + kind
 	if label != "" {
 		name += ":" + label
+	}
+	if top.oblNames == nil {
+		top.oblNames = map[string]int{}
+	}
+	top.oblNames[name]++
+	if n := top.oblNames[name]; n > 1 {
+		// e.g. one loop.preserve obligation per back edge
+		name = fmt.Sprintf("%s~%d", name, n)
 	}
 	o := &Obligation{Name: name, Func: top.fnName(), Kind: kind, Goal: goal, Prefix: len(fe.s.lines), Sess: fe.s, Src: src,
 		Props: top.props, Params: top.paramConsts, Bounded: top.bounded}
